@@ -575,7 +575,8 @@ pub fn tag_cases<W: for<'a> Collect<'a> + 'static>(cx: &mut Cx, needs_trace: boo
         }
         let nt = needs_trace as usize;
         run_case(cx, format!("tag {vtable} {color} {nt} {}", live as usize), |out| {
-            out.check(vtable % 16 == 0 && vtable != 0, || format!("vtable address is not 16-aligned (address % 16 = {})", vtable % 16));
+            // a vtable address that is not 16-aligned is rejected by the model (`bad-query`), which
+            // shows up as a disagreement; it is not by itself an implementation failure
             let mut arena = on(|| A::new(|_| Root::default()));
             let mut v = 0usize;
             let mut word = 0usize;
